@@ -382,6 +382,15 @@ func runC03(c *Ctx) {
 				cl = cl[:i]
 			}
 			r.hist("model_end_" + cl)
+			// hypothesis of maximal_run_complete (`quiescent`: no event of the scheduler/job alphabet is
+			// enabled) at the end of the real run: a Finished end state must be quiescent
+			r.hist("end_quiescent_" + schedHypNote(detail, "quiescent"))
+			if end == "finished" && schedHypNote(detail, "quiescent") == "no" {
+				r.violate(Violation{Kind: "correspondence", Key: "C03:finished-not-quiescent",
+					What:   "the model's end state of a completed real run is Finished but some scheduler/job event is still enabled: " + detail,
+					Input:  map[string]interface{}{"program": src, "spec": cs.spec.Name, "seed": cs.spec.Seed, "trace": res.Trace},
+					Broken: "the end of a completed real run is a maximal run of the model (hypothesis of Props.C03.maximal_run_complete)"})
+			}
 			// the decidable hypotheses of failure_free_run_completes_exactly_once, evaluated by the driver on
 			// this very history: the graph is topologically numbered (⇒ Acyclic), every event is failure-free
 			for _, hyp := range []string{"topo", "ff"} {
